@@ -528,10 +528,110 @@ pub fn cases(tier: &str) -> Vec<Value> {
             off += 8;
         }
     }
+    // back to back: a hostile datagram with a well-formed query queued right behind it (no chance
+    // for the service to run in between): the query must still be answered.  The hostile ones
+    // include the empty datagram and every one-octet datagram.
+    for chunk in 0..8 {
+        out.push(json!({"engine":"enet","check":"c05","kind":"back-to-back","chunk":chunk,"tier":tier}));
+    }
     out
 }
 
+fn b2b_hostiles() -> Vec<Vec<u8>> {
+    let mut v: Vec<Vec<u8>> = vec![vec![]];
+    for b in 0..=255u8 {
+        v.push(vec![b]);
+    }
+    let seed = seeds().into_iter().find(|(t, s)| *t == "dns" && s.name == "dns-query-cookie").map(|x| x.1.bytes).unwrap_or_default();
+    for l in 2..seed.len().min(40) {
+        v.push(seed[..l].to_vec());
+    }
+    v
+}
+
+fn run_b2b(case: &Value) -> CaseResult {
+    let spec = RigSpec { listeners: vec!["::1".into()], n_upstreams: 1, yaml: BASE_YAML.into() };
+    let mut rig = match Rig::start(&spec) {
+        Ok(r) => r,
+        Err(e) => return CaseResult::machinery(e),
+    };
+    let dst = rig.listen_addr(0);
+    let cip: std::net::IpAddr = "::1".parse().unwrap();
+    let all = b2b_hostiles();
+    let chunk = case["chunk"].as_u64().unwrap_or(0) as usize;
+    let mut res = CaseResult::ok("live:back-to-back");
+    let mut n = 0u64;
+    let mut served = 0usize;
+    for (i, h) in all.iter().enumerate() {
+        if i % 8 != chunk {
+            continue;
+        }
+        for how_many in [1usize, 3] {
+            n += 1;
+            let hc = match UdpClient::new(cip) {
+                Ok(c) => c,
+                Err(e) => return CaseResult::machinery(e),
+            };
+            let mut vc = match UdpClient::new(cip) {
+                Ok(c) => c,
+                Err(e) => return CaseResult::machinery(e),
+            };
+            let q = rd::encode(&rd::query(0x4b00 + (n as u16 & 0xff), &rd::name(&format!("b2b{n}.example")), rd::T_A, 1, true, None), false);
+            // no pump between these sends
+            for _ in 0..how_many {
+                let _ = hc.send(dst, h);
+            }
+            let _ = vc.send(dst, &q);
+            // serve whatever reaches the upstream; the valid query must be answered
+            let mut answered = false;
+            for _ in 0..120 {
+                rig.pump(4);
+                rig.poll_upstreams();
+                while served < rig.upstreams[0].udp_rx.len() {
+                    let (qb, src) = rig.upstreams[0].udp_rx[served].clone();
+                    served += 1;
+                    if let Ok((oq, _)) = rd::decode(&qb) {
+                        let rep = rd::Msg { id: oq.id, flags: 0x8180, question: oq.question.clone(), answer: vec![], authority: vec![], additional: vec![] };
+                        let _ = rig.upstreams[0].udp_reply(src, &rd::encode(&rep, true));
+                    }
+                }
+                vc.poll();
+                if !vc.rx.is_empty() {
+                    answered = true;
+                    break;
+                }
+            }
+            if !answered {
+                let ps = panics::take_all();
+                res.violations.push(
+                    Violation::new(
+                        "service-deaf",
+                        format!("{how_many} hostile datagram(s) of {} octet(s) ({}) with a well-formed query queued right behind: the query was never answered{}", h.len(), hex(&h[..h.len().min(12)]), ps.first().map(|p| format!(" (service task panicked: {} at {})", p.msg, panics::short_loc(&p.loc))).unwrap_or_default()),
+                        json!({"engine":"enet","check":"c05","kind":"back-to-back","chunk":chunk,"tier":case["tier"]}),
+                    )
+                    .sig("part", "live")
+                    .sig("hostile_len", h.len().min(2)),
+                );
+                // the listener may be dead for good: later observations on this rig would only repeat it
+                break;
+            }
+        }
+        if !res.violations.is_empty() {
+            break;
+        }
+    }
+    let ps = rig.stop();
+    if let Some(p) = ps.first() {
+        res.violations.push(Violation::new("panic", format!("a live DNS service task panicked on back-to-back input: {} at {}", p.msg, panics::short_loc(&p.loc)), case.clone()).sig("loc", panics::short_loc(&p.loc)));
+    }
+    res.stats = json!({"live_inputs": n});
+    res
+}
+
 pub fn run_case(case: &Value) -> CaseResult {
+    if case["kind"].as_str() == Some("back-to-back") {
+        return run_b2b(case);
+    }
     let spec = RigSpec { listeners: vec!["::1".into()], n_upstreams: 1, yaml: BASE_YAML.into() };
     let mut rig = match Rig::start(&spec) {
         Ok(r) => r,
@@ -673,7 +773,7 @@ pub fn run(tier: &str, replay: Option<Value>) -> ! {
     rep.cov("live_service_inputs", live);
     rep.cov("evaluations", e3);
     rep.cov("distinct_nontrivial", acc.classes.iter().filter(|c| !c.contains(":reject")).count() as u64);
-    rep.cov("rule", "5 targets (dhcp receive path incl. handle_pkt/log_options/to_array/frame build; dns parser + every accessor the listener and upstream-reply paths call; icmp6 parse; lldp from_wire + TLV logging; pktparser readers) x {all byte strings of length <=2 (thorough <=3); valid seeds x every offset x all 256 values; seeds x every truncation; seeds x all pairs of marked length/count/pointer/type fields x boundary values}; live DNS service: every offset of the query seed (as a client datagram) and of the reply seed (as the upstream's reply to a valid query) x byte values (quick 14, thorough 256) + truncations, each chunk followed by a valid query that must be answered. distinct_nontrivial = distinct outcome classes that got past the decoder's rejection");
+    rep.cov("rule", "5 targets (dhcp receive path incl. handle_pkt/log_options/to_array/frame build; dns parser + every accessor the listener and upstream-reply paths call; icmp6 parse; lldp from_wire + TLV logging; pktparser readers) x {all byte strings of length <=2 (thorough <=3); valid seeds x every offset x all 256 values; seeds x every truncation; seeds x all pairs of marked length/count/pointer/type fields x boundary values}; live DNS service: every offset of the query seed (as a client datagram) and of the reply seed (as the upstream's reply to a valid query) x byte values (quick 14, thorough 256) + truncations, each chunk followed by a valid query that must be answered; back to back: the empty datagram, every one-octet datagram and every prefix of the query seed, 1 or 3 copies, with a well-formed query queued right behind them before the service gets to run -- the query must be answered. distinct_nontrivial = distinct outcome classes that got past the decoder's rejection");
     rep.cov("exhaustive", true);
     rep.cov("parts", json!({"short_strings": e1, "seed_sweeps": e2 - e1, "liveness": e3 - e2}));
     rep.cov("outcome_classes", json!(acc.classes));
